@@ -222,8 +222,12 @@ func (cs *clientState) unblock(reason string, isError bool) {
 				cs.unblockCh <- unblockReason{reason: reason, isError: isError}
 			}
 		}
-		simYield("cs.atomic")
-		atomic.SwapInt32(&cs.blocked, locked)
+		if locked != CS_CHECKING {
+			// this goroutine took the word from a stable state and hands it back;
+			// one that found CS_CHECKING does not own it and must not overwrite it
+			simYield("cs.atomic")
+			atomic.SwapInt32(&cs.blocked, locked)
+		}
 
 		if locked == CS_UNCAPTURED || locked == CS_CAPTURED {
 			return
@@ -252,8 +256,11 @@ func (cs *clientState) isBlocked() bool {
 		if locked == CS_CAPTURED {
 			blocked = true
 		}
-		simYield("cs.atomic")
-		atomic.SwapInt32(&cs.blocked, locked)
+		if locked != CS_CHECKING {
+			// see unblock: only the owner of the word restores it
+			simYield("cs.atomic")
+			atomic.SwapInt32(&cs.blocked, locked)
+		}
 
 		if locked == CS_UNCAPTURED || locked == CS_CAPTURED {
 			return blocked
